@@ -73,7 +73,7 @@ ASSUMPTIONS = ["internal terms only (kwargs_formula external_terms=False); model
 MIN_NONTRIVIAL = {"quick": 2, "thorough": 10}
 
 # (PASS, CLEAR, CONV) per pair and dimension, see module docstring
-THRESH = {"default": (0.05, 0.12, 0.06), ("nldrude", 2): (0.15, 0.35, 0.06), ("nldrude", 3): (0.15, 0.35, 0.06),
+THRESH = {"default": (0.05, 0.15, 0.06), ("nldrude", 2): (0.15, 0.35, 0.06), ("nldrude", 3): (0.15, 0.35, 0.06),
           ("nldrude_d2", 2): (0.15, 0.35, 0.06)}
 SECONDARY = {("nldrude_d2", 2)}     # its "inside margin"/"not converged" is a label, not a verdict on the case
 GUARD = 0.3
